@@ -18,6 +18,9 @@ fn usage() -> ! {
 }
 
 fn dispatch<P: Prop>(p: P, cfg: &RunCfg, replay: &Option<String>) -> i32 {
+    if let Ok(r) = std::env::var("VERIF_CRASH_EVIDENCE") {
+        return crash_evidence(&p, cfg, &r);
+    }
     match replay {
         Some(path) => replay_file(&p, path),
         None => run_prop(&p, cfg),
